@@ -4,6 +4,7 @@
    1 SEARCH : kind base n (opt ts)*n curOK t | errclass seq ts trace
    2 PATH   : kind n | statePath dataPath
    3 DECODE : kind cur n fileseq ts | ok seq ts
+   5 FAULT  : kind mode n cut len | outcome
    4 DECODEB: kind cur n body wf iseq (7 time fields) | outcome seq (7 time fields) txnMax txnMaxQueried
    codes: 1 = model <> implementation, 2 = property oracle fails on the observation,
           0 = case does not parse. *)
@@ -114,6 +115,14 @@ Definition check_decodeb : P (list Z) :=
     if wf then (outcome =? 0) && (oseq =? fetched_seq kind name iseq) && tm_eqb ot it else true in
   ret (code_if j1 1 ++ code_if j2 2)%list.
 
+(* 5 FAULT: a transfer that broke off is never read as a state (the model has no transport
+   faults: every request returns a whole file or a 404; this judgement only says that the
+   implementation does not leave that domain silently) *)
+Definition check_fault : P (list Z) :=
+  kind <- pint ;; mode <- pint ;; n <- pint ;; cut <- pint ;; len <- pint ;; outcome <- pint ;;
+  let ok := (cut <? len) && (outcome =? 1) in
+  ret (code_if ok 1 ++ code_if ok 2)%list.
+
 Definition check_case (t : toks) : list Z :=
   match t with
   | tag :: rest =>
@@ -121,6 +130,7 @@ Definition check_case (t : toks) : list Z :=
                else if tag =? 4 then check_path
                else if tag =? 6 then check_decode
                else if tag =? 8 then check_decodeb
+               else if tag =? 10 then check_fault
                else pfail in
       match parse_all p rest with Some codes => codes | None => [0] end
   | [] => [0]
